@@ -154,7 +154,9 @@ def plan_for(chk):
     else:
         n = {"C": 900, "NNC": 900, "Grid": 800, "BDS": 600, "Oct": 600, "Box": 600, "PS": 600, "Prod": 400, "LE": 300, "CS": 250, "GS": 250}
         steps = 18
-    return [(d, n[d], steps) for d in DOM_ORDER]
+    sw = 5 if chk.quick else 60
+    sweeps = [("sweep:" + d, sw * (2 if d in ("C", "NNC") else 1), 0) for d in ("C", "NNC", "Grid", "BDS", "Oct", "Box", "PS", "Prod")]
+    return [(d, n[d], steps) for d in DOM_ORDER] + sweeps
 
 
 def run(chk):
